@@ -88,7 +88,7 @@ CLAIMS = {
               "ANY history (arbitrary calls, stepped and RAMPED ratio changes, chunk changes, resets) a call ends in Ok or in the Err of argument "
               "validation, never in a panic or out-of-range access, and with valid arguments it is Ok (true since the fix: commits to the needed-size "
               "formula). Fixed-input types: proved at constant ratio for every chunk-size schedule plus sufficient conditions for stepped changes; the "
-              "full statement is FALSE on this tree (findings D3/D4/D5, proved by kernel-evaluated witnesses; D12 proved for all positions). FFT types: "
+              "full statement is FALSE on this tree (findings D3/D4/D5, D17 diverging idle loop, D18/D20 user interpolators shorter than 3/4 taps: proved by kernel-evaluated witnesses on the model; D12 proved for all positions; D21 machine-word overflow at ratios below 1e-18 is recorded, outside the model). FFT types: "
               "every valid call of every valid history is Ok. Tie: the model must predict every crash of the real crate at the same step; the harness "
               "builds rubato with debug assertions and overflow checks so an out-of-range unchecked access aborts."),
         note=NOTE + "Not covered: f64/f32 rounding of the index arithmetic (bit-exact Float twin + oracle), machine-word overflow, realfft/rustfft internals, NEON.",
